@@ -25,11 +25,23 @@
      C06_edge                  for k >= 1, positive weights and a weight-sorted scan order, the cycle emitted for
                                a dropped edge e weighs at most 2k * w(e) (shortest spanner path <= the light
                                (2k-1)-hop path of C15, plus e).
-   NOT proved (Definition, not asserted):
-     C06_global_stmt  total <= (2k-1) * optimum (Kavitha, Mehlhorn, Michail 2007: a weight-monotone
-                      exchange between two bases of a binary matroid).
-   It is covered by the check: every answer is judged against the optimum computed by the verified
-   `optw` (RefModel) and by the independent oracle. *)
+   The global guarantee (second half of this file; proofs in ApproxGlobalProofs1-4.v):
+     C06_approx_scheme         the abstract t-approximate version of de Pina's minimality theorem
+                               (DePinaSpec.depina_min_stmt with the per-phase premise weakened to
+                               w(C_k) <= t * w(D)): total <= t * total of ANY spanning family of class elements.
+     C06_edge_vs_cycle         the cycle emitted for a dropped edge e weighs <= (2k-1) * w(D) for EVERY simple
+                               cycle D of the input through e.
+     C06_global                = C06_global_stmt (below): for every simple graph with positive weights, k >= 1,
+                               weight-sorted scan order and ANY exact phase that returns a minimum cycle basis of
+                               the spanner with its weight, returned value <= (2k-1) * weight of a minimum cycle
+                               basis of the input.
+     C06_global_any_basis      the same against ANY cycle basis of the input.
+     C06_global_opt            opt <= returned value <= (2k-1) * opt   for the optimum (OptSpec.is_opt).
+     C06_global_signed         PREMISE-FREE, approx_mcb_sva_signed: the run returns ApproxOk, the result is a cycle
+                               basis of the input, the returned value is its total weight, it is
+                               <= (2k-1) * w(B') for every cycle basis B', and opt <= it <= (2k-1) * opt.
+   The check still judges every answer against the optimum computed by the verified `optw` (RefModel) and by the
+   independent oracle. *)
 From Coq Require Import List Arith Bool ZArith Permutation Sorted Lia.
 From Parmcb Require Import GraphModel GF2Model GraphSpec McbSpec ForestModel SpannerModel SvaModel SvaSpec SvaProofs
   SignedModel SignedZModel RefModel RefProofs3 DijkstraModel ApproxModel ApproxProofsDijkstraOpt ApproxProofsRun ApproxProofsSigned
@@ -114,7 +126,7 @@ Theorem C06_edge :
 Proof. exact ap_edge_bound. Qed.
 Print Assumptions C06_edge.
 
-(* the (2k-1) guarantee against ANY minimum cycle basis B of the input *)
+(* the (2k-1) guarantee against ANY minimum cycle basis B of the input (proved below: C06_global) *)
 Definition C06_global_stmt : Prop :=
   forall (exact : graph -> list Z -> sva_result Z) g w k scan cycles total B,
     simple_graph g -> positive_weights g w -> Permutation scan (seq 0 (ne g)) ->
@@ -161,4 +173,112 @@ Proof.
     destruct (rf_mcb_checkb_sound_from sva_generic_basis sva_generic_min h wh [0; 1; 2; 3; 4; 5; 6; 7; 8] cs Hs Hw ap_lt_9_In Hc) as (H1 & _)
   end.
   rewrite Em in H1. exact H1.
+Qed.
+
+(* ==== the global (2k-1) guarantee ================================================================== *)
+From Parmcb Require Import DePinaSpec OptSpec ApproxGlobalProofs1 ApproxGlobalProofs4.
+
+(* (1) the abstract scheme: triangular witnesses, linear pairing, every phase a t-approximation of the minimum odd
+   class element  ==>  total <= t * total of ANY spanning family of class elements *)
+Theorem C06_approx_scheme :
+  forall (inV : vec -> Prop) (pair : vec -> vec -> bool) (cls : vec -> Prop) (w : list Z) (t : Z)
+         (Ss Cs B' : list vec),
+    subspace inV -> pair_linear inV pair -> (0 <= t)%Z -> Forall inV Cs -> triangular pair Ss Cs ->
+    (forall k D, k < length Cs -> cls D -> inV D -> pair (nth k Ss []) D = true ->
+                 (weight w (nth k Cs []) <= t * weight w D)%Z) ->
+    Forall cls B' -> Forall inV B' -> spans inV B' ->
+    (forall D, In D B' -> (0 <= weight w D)%Z) ->
+    (total_weight w Cs <= t * total_weight w B')%Z.
+Proof. exact depina_approx. Qed.
+Print Assumptions C06_approx_scheme.
+
+(* (3a) the cycle of a dropped edge against every simple cycle of the input through that edge *)
+Theorem C06_edge_vs_cycle :
+  forall g w k scan sp e cyc cw Dc,
+    simple_graph g -> positive_weights g w -> 1 <= k -> Permutation scan (seq 0 (ne g)) ->
+    Sorted (fun a b => (wt w a <= wt w b)%Z) scan ->
+    construct_spanner g k scan = SpOk sp -> In e (dropped sp) ->
+    dropped_cycle g w sp e = inr (cyc, cw) ->
+    simple_cycle g Dc -> In e Dc -> (cw <= Z.of_nat (2 * k - 1) * weight w Dc)%Z.
+Proof. exact ag_edge_vs_cycle. Qed.
+Print Assumptions C06_edge_vs_cycle.
+
+Theorem C06_global : C06_global_stmt.
+Proof. exact ag_global. Qed.
+Print Assumptions C06_global.
+
+(* against ANY cycle basis of the input *)
+Theorem C06_global_any_basis :
+  forall (exact : graph -> list Z -> sva_result Z) g w k scan cycles total B',
+    simple_graph g -> positive_weights g w -> Permutation scan (seq 0 (ne g)) ->
+    Sorted (fun a b => (wt w a <= wt w b)%Z) scan ->
+    (forall sp cs t sup, construct_spanner g k scan = SpOk sp ->
+       exact (sp_graph sp) (spanner_weights w sp) = SvaOk cs t sup ->
+       min_cycle_basis (sp_graph sp) (spanner_weights w sp) cs /\ t = total_weight (spanner_weights w sp) cs) ->
+    approx_run exact g w k scan = ApproxOk cycles total ->
+    cycle_basis g B' ->
+    (total <= Z.of_nat (2 * k - 1) * total_weight w B')%Z.
+Proof. exact ag_run_global. Qed.
+Print Assumptions C06_global_any_basis.
+
+(* against the optimum: the sandwich  opt <= returned <= (2k-1) * opt *)
+Theorem C06_global_opt :
+  forall (exact : graph -> list Z -> sva_result Z) g w k scan cycles total x,
+    simple_graph g -> positive_weights g w -> Permutation scan (seq 0 (ne g)) ->
+    Sorted (fun a b => (wt w a <= wt w b)%Z) scan ->
+    (forall sp cs t sup, construct_spanner g k scan = SpOk sp ->
+       exact (sp_graph sp) (spanner_weights w sp) = SvaOk cs t sup ->
+       min_cycle_basis (sp_graph sp) (spanner_weights w sp) cs /\ t = total_weight (spanner_weights w sp) cs) ->
+    approx_run exact g w k scan = ApproxOk cycles total ->
+    is_opt g w x ->
+    (x <= total <= Z.of_nat (2 * k - 1) * x)%Z.
+Proof. exact ag_run_global_opt. Qed.
+Print Assumptions C06_global_opt.
+
+(* approx_mcb_sva_signed, no premise on the exact phase *)
+Theorem C06_global_signed :
+  forall g w k scan roots eord,
+    simple_graph g -> positive_weights g w -> 1 <= k -> Permutation scan (seq 0 (ne g)) ->
+    Sorted (fun a b => (wt w a <= wt w b)%Z) scan ->
+    (forall v, v < nv g -> In v roots) ->
+    exists cycles total,
+      approx_sva_signed_Z g w k scan roots eord = ApproxOk cycles total
+      /\ cycle_basis g (map set_of_list cycles)
+      /\ total = total_weight w cycles
+      /\ (forall B', cycle_basis g B' -> (total <= Z.of_nat (2 * k - 1) * total_weight w B')%Z)
+      /\ (forall x, is_opt g w x -> (x <= total <= Z.of_nat (2 * k - 1) * x)%Z).
+Proof. exact ag_signed_global. Qed.
+Print Assumptions C06_global_signed.
+
+(* non-vacuity of the global guarantee: the graph of C05_nonvacuous with k = 2 (three edges dropped): the
+   hypotheses of C06_global_signed hold, the model returns 24, hence  opt <= 24 <= 3 * opt. *)
+Example C06_global_nonvacuous :
+  let g := {| nv := 9; ge := [(0,1); (0,2); (0,3); (1,2); (1,3); (2,3); (3,4);
+                               (4,5); (5,6); (6,7); (7,8); (8,4)] |} in
+  let w := [1; 1; 2; 2; 2; 3; 1; 1; 1; 1; 1; 5]%Z in
+  let scan := [6; 0; 1; 10; 7; 8; 9; 3; 2; 4; 5; 11] in
+  let roots := [4; 0; 1; 2; 3; 5; 6; 7; 8] in
+  let eord := [3; 1; 0; 2; 8; 7; 6; 5; 4] in
+  simple_graph g /\ positive_weights g w /\ Permutation scan (seq 0 (ne g))
+  /\ Sorted (fun a b => (wt w a <= wt w b)%Z) scan
+  /\ (forall v, v < nv g -> In v roots)
+  /\ approx_sva_signed_Z g w 2 scan roots eord
+     = ApproxOk [[10; 7; 8; 9; 11]; [1; 0; 3]; [2; 0; 4]; [2; 1; 5]] 24%Z
+  /\ (forall x, is_opt g w x -> (x <= 24 <= 3 * x)%Z).
+Proof.
+  cbv zeta.
+  match goal with |- ?A /\ ?B /\ ?C /\ ?D /\ ?E /\ ?F /\ ?G =>
+    assert (HA : A) by (vm_compute; reflexivity);
+    assert (HB : B) by (split; [reflexivity|repeat constructor]);
+    assert (HC : C) by (apply SpannerProofs.scan_perm_check; vm_compute; reflexivity);
+    assert (HD : D) by (repeat (first [apply Z.leb_le; vm_compute; reflexivity | constructor]));
+    assert (HE : E) by (intros v Hv; do 9 (destruct v as [|v]; [cbn [In]; tauto|]); exfalso; cbn [nv] in Hv; lia);
+    assert (HF : F) by (vm_compute; reflexivity)
+  end.
+  repeat (split; [assumption|]).
+  match type of HF with approx_sva_signed_Z ?g ?w _ ?scan ?roots ?eord = _ =>
+    destruct (C06_global_signed g w 2 scan roots eord HA HB (le_S _ _ (le_n 1)) HC HD HE)
+      as (cycles & total & Hrun & _ & _ & _ & Hopt)
+  end.
+  rewrite HF in Hrun. injection Hrun as <- <-. exact Hopt.
 Qed.
